@@ -36,6 +36,16 @@ type retryCfg struct {
 	CooldownS int      `json:"cooldown_s"`
 	Mult      float64  `json:"multiplier"`
 	Ranges    [][2]int `json:"ranges"` // flows: exactly one
+	// flows mode only: a SECOND Retry processor in the same flow, behind its own status filter (disjoint range)
+	Range2    *[2]int `json:"second_processor_range,omitempty"`
+	Attempts2 int     `json:"second_processor_attempts,omitempty"`
+}
+
+// second returns the configuration as the second processor sees it.
+func (c retryCfg) second() retryCfg {
+	d := c
+	d.Ranges, d.Attempts, d.Range2 = [][2]int{*c.Range2}, c.Attempts2, nil
+	return d
 }
 
 func (c retryCfg) matches(status int) bool {
@@ -48,6 +58,9 @@ func (c retryCfg) matches(status int) bool {
 }
 
 func (c retryCfg) key() string {
+	if c.Range2 != nil {
+		return fmt.Sprintf("%s/a%d/c%d/m%v/%v+second%v/a%d", c.Mode, c.Attempts, c.CooldownS, c.Mult, c.Ranges, *c.Range2, c.Attempts2)
+	}
 	return fmt.Sprintf("%s/a%d/c%d/m%v/%v", c.Mode, c.Attempts, c.CooldownS, c.Mult, c.Ranges)
 }
 
@@ -126,6 +139,13 @@ func (m *seqModel) step(cfg retryCfg, ev event, isNewCall bool) (kind string, st
 	wantRetryAll, wantNoRetryAll := true, true // over every admissible state of every convention
 	anyState := false
 	exhaustedSeen, midSeen, freshSeen := false, false, false
+	// a retry was requested in this sequence and it has not ended: a count is being kept for it
+	hadActive := false
+	for c := range m.states {
+		for s := range m.states[c] {
+			hadActive = hadActive || s.Active
+		}
+	}
 	var next [2]map[seqState]bool
 	for c := range m.states {
 		next[c] = map[seqState]bool{}
@@ -182,7 +202,10 @@ func (m *seqModel) step(cfg retryCfg, ev event, isNewCall bool) (kind string, st
 				}
 			} else {
 				m.lastEnd = endNonMatching
-				m.sinceNM = true
+				if hadActive {
+					// only a sequence that was being counted can leave a count behind (the open flows-mode finding)
+					m.sinceNM = true
+				}
 			}
 		}
 		switch {
@@ -243,9 +266,14 @@ type flowSUT struct {
 	clk   *sim.VClock
 	v     *sim.Verdict
 	waits int
+	// lastProc: the Retry processor ("Again" | "Again2") that reported a condition for the latest response
+	lastProc string
 }
 
 func flowYAML(c retryCfg) string {
+	if c.Range2 != nil {
+		return flowYAML2(c)
+	}
 	return fmt.Sprintf(`name: retryflow
 filter:
   url: a.com/*
@@ -316,6 +344,34 @@ flow:
 `, c.Ranges[0][0], c.Ranges[0][1], c.Attempts, c.CooldownS, c.Mult)
 }
 
+// flowYAML2: start -> StatusFilter -hit-> Again ; -miss-> StatusFilter2 -hit-> Again2 ; everything else -> end
+func flowYAML2(c retryCfg) string {
+	end := "      to:\n        stream:\n          name: globalStream\n          at: end\n"
+	conn := func(from, cond, to string) string {
+		x := "    - from:\n        processor:\n          name: " + from + "\n"
+		if cond != "" {
+			x += "          condition: " + cond + "\n"
+		}
+		if to == "" {
+			return x + end
+		}
+		return x + "      to:\n        processor:\n          name: " + to + "\n"
+	}
+	retry := func(name string, attempts int) string {
+		return fmt.Sprintf("  %s:\n    processor: Retry\n    parameters:\n      - key: attempts\n        value: %d\n      - key: cooldown_between_attempts_seconds\n        value: %d\n      - key: cooldown_multiplier\n        value: %v\n", name, attempts, c.CooldownS, c.Mult)
+	}
+	filter := func(name string, r [2]int) string {
+		return fmt.Sprintf("  %s:\n    processor: Filter\n    parameters:\n      - key: status_code_range\n        value: \"%d-%d\"\n", name, r[0], r[1])
+	}
+	return "name: retryflow\nfilter:\n  url: a.com/*\nprocessors:\n" +
+		filter("StatusFilter", c.Ranges[0]) + filter("StatusFilter2", *c.Range2) + retry("Again", c.Attempts) + retry("Again2", c.Attempts2) +
+		"flow:\n  request:\n    - from:\n        stream:\n          name: globalStream\n          at: start\n" + end +
+		"  response:\n    - from:\n        stream:\n          name: globalStream\n          at: start\n      to:\n        processor:\n          name: StatusFilter\n" +
+		conn("StatusFilter", "hit", "Again") + conn("StatusFilter", "miss", "StatusFilter2") +
+		conn("StatusFilter2", "hit", "Again2") + conn("StatusFilter2", "miss", "") +
+		conn("Again", "retry", "") + conn("Again", "failed", "") + conn("Again2", "retry", "") + conn("Again2", "failed", "")
+}
+
 const sentinel = 98765 * time.Hour
 
 func newFlowSUT(root string, c retryCfg, clk *sim.VClock, v *sim.Verdict) (*flowSUT, error) {
@@ -380,8 +436,9 @@ func (f *flowSUT) respond(txnID, seqID string, status int) (bool, string, error)
 	}
 	cond := ""
 	for _, e := range sim.GlobalSink.Drain() {
-		if e.Kind == "proc" && len(e.Args) >= 5 && e.Args[1] == "Again" && e.Args[4] == txnID {
+		if e.Kind == "proc" && len(e.Args) >= 5 && (e.Args[1] == "Again" || e.Args[1] == "Again2") && e.Args[4] == txnID {
 			cond = e.Args[3]
+			f.lastProc = e.Args[1]
 		}
 	}
 	return retry, cond, nil
@@ -449,6 +506,7 @@ func (rn *runner) runHistory(idx int, c retryCfg, s sut, prefix string, evs []ev
 	models := map[int]*seqModel{}
 	pendingRetry := map[int]bool{}
 	attemptNo := map[int]int{}
+	models2 := map[int]*seqModel{}      // second Retry processor of the flow (when configured)
 	retryAskedAt := map[int]time.Time{} // virtual instant at which the gateway asked for the sequence's latest retry (after the cool-down)
 	shape := map[string]int{}
 	for k := range evs {
@@ -512,6 +570,9 @@ func (rn *runner) runHistory(idx int, c retryCfg, s sut, prefix string, evs []ev
 			}
 			if at, ok := retryAskedAt[ev.Seq]; ok && pendingRetry[ev.Seq] && rn.clk.Now().Sub(at) >= 100*time.Second {
 				m.mayForget()
+				if m2 := models2[ev.Seq]; m2 != nil {
+					m2.mayForget()
+				}
 				v.Count("flows_retried_responses_later_than_the_request_timeout(may be forgotten)", 1)
 			}
 		}
@@ -544,8 +605,50 @@ func (rn *runner) runHistory(idx int, c retryCfg, s sut, prefix string, evs []ev
 				return false
 			}
 		}
-		kind, stat := m.step(c, *ev, isNewCall)
+		cfgOf := c
+		if c.Range2 != nil {
+			// two Retry processors in one flow: each keeps its own count per sequence. The response belongs to the
+			// processor whose filter it passes; for the other one it is a response outside its conditions.
+			first, second := c, c.second()
+			first.Range2 = nil
+			m2 := models2[ev.Seq]
+			if m2 == nil {
+				m2 = newSeqModel()
+				models2[ev.Seq] = m2
+			}
+			if ev.Abandon && isNewCall {
+				m2.mayForget()
+			}
+			if fs, ok := s.(*flowSUT); ok && cond != "" {
+				want := "Again"
+				if second.matches(ev.Status) {
+					want = "Again2"
+				}
+				if fs.lastProc != want {
+					v.Violate("C17/flows/wrong-processor", fmt.Sprintf("event #%d: status %d was handled by %s, its filter leads to %s", k, ev.Status, fs.lastProc, want),
+						replay{Case: idx, Seed: rn.args.Seed, Cfg: c, Events: evs[:k+1]})
+					return false
+				}
+			}
+			other := *ev
+			other.Retry = false
+			if second.matches(ev.Status) {
+				// first processor: outside its conditions
+				if kind, _ := m.step(first, other, isNewCall); kind != "" && !first.matches(ev.Status) {
+					v.Count("harness_two_processor_other_step_unexplained", 1)
+				}
+				m, cfgOf = m2, second
+				v.Count("responses_handled_by_the_second_retry_processor", 1)
+			} else {
+				m2.step(second, other, isNewCall)
+				cfgOf = first
+			}
+		}
+		kind, stat := m.step(cfgOf, *ev, isNewCall)
 		if kind != "" {
+			if c.Range2 != nil && kind != "missing-retry/after-nonmatching-end" {
+				kind = "two-processors/" + kind
+			}
 			v.Violate("C17/"+c.Mode+"/"+kind,
 				fmt.Sprintf("event #%d (seq %d, status %d, txn %s): retry requested=%v (%s) contradicts every admissible state of the sequence; attempts=%d",
 					k, ev.Seq, ev.Status, ev.TxnID, retry, cond, c.Attempts),
@@ -589,6 +692,18 @@ func genCfg(r *sim.Rand, mode string) retryCfg {
 			c.CooldownS = r.Range(0, 5)
 			c.Mult = sim.Pick(r, []float64{0, 0.5, 1, 1.5, 2, 3})
 		}
+		if r.Chance(1, 4) {
+			// a second Retry processor behind its own, disjoint status filter
+			switch c.Ranges[0] {
+			case [2]int{500, 599}, [2]int{500, 500}:
+				c.Range2 = &[2]int{429, 429}
+			case [2]int{429, 429}:
+				c.Range2 = &[2]int{500, 599}
+			}
+			if c.Range2 != nil {
+				c.Attempts2 = r.Range(1, 4)
+			}
+		}
 	} else {
 		c.Ranges = sim.Pick(r, policyRanges)
 		c.CooldownS = r.Range(0, 6)
@@ -608,7 +723,7 @@ func genEvents(r *sim.Rand, c retryCfg) []event {
 	// status mix: bias towards matching statuses so that exhaustion is reached
 	var matching, other []int
 	for _, s := range statuses {
-		if c.matches(s) {
+		if c.matches(s) || (c.Range2 != nil && c.second().matches(s)) {
 			matching = append(matching, s)
 		} else {
 			other = append(other, s)
